@@ -465,8 +465,7 @@ def model_case(case, obs):
 
 def _as_code_sees(ty, v, unwrap=False):
     """A member of a str-mixin Enum IS a `str` (its value) for `isinstance(x, str)`, `E[x]` and `tuple(x)`: where the code
-    applies one of those to a parsed value, the model is given that str.  (scalar enum field: `postprocess` looks any str
-    up by name, at top level and after the nesting-level-2 un-wrapping; tuple field: `tuple(x)` of a bare item.)"""
+    applies one of those to a parsed value, the model is given that str.  (tuple field: `tuple(x)` of a bare item; scalar enum fields needed this too until fix 69d4809.)"""
     def conv(x):
         if x.get("t") == "enum" and x.get("cls") in STR_MIXIN:
             e = ENUM_BY_CLS[x["cls"]]
@@ -474,10 +473,9 @@ def _as_code_sees(ty, v, unwrap=False):
         return x
 
     if ty["k"] == "enum":
-        if v.get("t") in ("list", "tuple"):
-            # only the nesting-level-2 shortcut hands the ITEMS of a container to `postprocess`
-            return dict(v, v=[conv(x) for x in v["v"]]) if unwrap else v
-        return conv(v)
+        # since fix 69d4809 `postprocess` leaves a value that already is a member alone (it used to look every `str`,
+        # hence every member of a str-mixin Enum, up by name again): nothing to translate for enum fields any more
+        return v
     if ty["k"] in ("tuple", "vtuple") and v.get("t") == "enum":
         return conv(v)
     return v
